@@ -36,6 +36,7 @@ type loopOpts struct {
 	unreadableP   float64 // share of map-less fans whose PWM file can never be read
 	rpmSideFaults bool    // third-party PWM writes and PWM read faults seen by the RPM monitor
 	stableAlgos   bool    // only algorithms documented to settle (direct, rate-limited, default PID)
+	dropoutP      float64 // share of saturating fans whose stored RPM curve has a tachometer drop-out (0 = 0.12)
 }
 
 var absurdTemps = []int{-273000, -50000, -1, 0, 1, 19999, 20000, 20001, 35000, 50000, 64999, 79999, 80000, 80001, 120000, 2147483647, -2147483648, 9007199254740993, -9007199254740993}
@@ -234,7 +235,7 @@ func genLoop(family string, seed uint64, tier string, o loopOpts) *world.Scenari
 		}
 		if kind == "hwmon" {
 			data := linearRpmCurve(curveStart, curveMaxEff, f.Plant.MaxRpm)
-			if dr := kernel.NewRand(seed, "loop.dropout."+f.ID); curveMaxEff < 250 && dr.Bool(0.12) {
+			if dr := kernel.NewRand(seed, "loop.dropout."+f.ID); curveMaxEff < 250 && dr.Bool(max(o.dropoutP, 0.12)) {
 				// the stored RPM curve has a tachometer drop-out on its plateau: one sample above the PWM that
 				// reaches the highest RPM reads 0 (limits are unaffected: lowest PWM with RPM > 0, lowest PWM
 				// reaching the highest RPM)
